@@ -28,6 +28,7 @@ CONSTANTS
   PartBodies,   \* body atoms of parts
   MaxUploads,   \* bound on upload ids issued
   MaxList,      \* longest part list of a Complete request
+  AfterRead,    \* TRUE: refine the view by "the previous request was a HEAD or GET of an object" (what a read may have cached)
   AfterRefusal, \* TRUE: refine the view by "the previous mutating request was refused"
   BadBuckets    \* names that must never be buckets (internal storage names, '.', '..'): every operation
                 \* addressed to them is refused and changes nothing (C10)
@@ -255,7 +256,9 @@ Next ==
        /\ \E res \in Step(st, Cfg, op) :
             /\ st' = res.st
             /\ hist' = Append(hist, [op |-> op, r |-> res.r])
-            /\ rej' = IF AfterRefusal /\ op.op \in Mutating /\ Refused(res.r) THEN op ELSE NoRefusal
+            /\ rej' = IF AfterRefusal /\ op.op \in Mutating /\ Refused(res.r) THEN op
+                       ELSE IF AfterRead /\ op.op \in {"HeadObject", "GetObject"} THEN op
+                       ELSE NoRefusal
             /\ ghost' = IF Ghosts
                           THEN {bk \in ghost \cup AllBK(st) : StackAt(res.st, bk[1], bk[2]) = <<>>}
                           ELSE {}
@@ -275,6 +278,7 @@ AuditOps(s) ==
       PerBucket(b) ==
         <<ListOp(b, <<>>), ListOp(b, <<47>>)>>
         \o [i \in 1..Len(keys) |-> [op |-> "GetObject", b |-> b, k |-> keys[i]]]
+        \o [i \in 1..Len(keys) |-> [op |-> "HeadObject", b |-> b, k |-> keys[i]]]
         \o (IF Cfg.versioned
               THEN <<[op |-> "GetVersioning", b |-> b],
                      [op |-> "ListVersions", b |-> b, prefix |-> <<>>, delim |-> <<>>]>>
